@@ -653,6 +653,10 @@ static int tunnel_tun(int tun_fd, struct dnsfd *dns_fds)
 	if ((read = read_tun(tun_fd, in, sizeof(in))) <= 0)
 		return 0;
 
+	/* too short to hold an IPv4 header after the TUN header: nothing to route by */
+	if (read < 4 + (int) sizeof(struct ip))
+		return 0;
+
 	/* find target ip in packet, in is padded with 4 bytes TUN header */
 	header = (struct ip*) (in + 4);
 	userid = find_user_by_ip(header->ip_dst.s_addr);
@@ -1881,8 +1885,13 @@ handle_full_packet(int tun_fd, struct dnsfd *dns_fds, int userid)
 	if (ret == Z_OK) {
 		struct ip *hdr;
 
-		hdr = (struct ip*) (out + 4);
-		touser = find_user_by_ip(hdr->ip_dst.s_addr);
+		if (outlen >= 4 + sizeof(struct ip)) {
+			hdr = (struct ip*) (out + 4);
+			touser = find_user_by_ip(hdr->ip_dst.s_addr);
+		} else {
+			/* too short to hold an IPv4 header: not for another client */
+			touser = -1;
+		}
 
 		if (touser == -1) {
 			/* send the uncompressed packet to tun device */
